@@ -20,6 +20,7 @@ RULE = (
     "select_next_plate CLIs. Non-trivial = (n_chunks>=2 and non-empty batch) or ties at the minimum or n_chunks > candidates. distinct = distinct case JSON."
     ' Also: fixed cases in which every chunk index is computed by its own interpreter process with its own string-hash salt.'
     ' Also: four-slot conditions on screens whose treatment table has 2**k - 2 .. 2**k entries (k = 8, 16; thorough 12); a third of the CLI cases name every score file scores.h5 in a directory of its own.'
+    ' Freshly loaded chunks are also combined in three bracketings (combine inside concat, concat of concats, concat then combine).'
 )
 ASSUMPTIONS = [
     "'distinct condition' is the ordered tuple (sample id, treatment ids) - what filter_dataset_to_unique_treatments documents; which duplicate survives is not asserted",
@@ -195,6 +196,24 @@ def check_case(case):
         got_pairs = sorted((int(p), float(s)) for p, s in zip(combined.plate_ids[: combined.current_index], combined.scores[: combined.current_index]))
         exp_pairs = sorted((pid, float(score_of[pid])) for pid in candidates)
         require(got_pairs == exp_pairs, "combined.contents", lambda: "combined scores %r, expected %r (order %r)" % (got_pairs, exp_pairs, order))
+        # ... and in any bracketing: freshly loaded chunks are combined pairwise, concatenated in groups, and groups with groups
+        if len(files) >= 2:
+            pairs_of = lambda h_: sorted((int(p_), float(s_)) for p_, s_ in zip(h_.plate_ids[: h_.current_index], h_.scores[: h_.current_index]))
+            fresh = lambda: [ChunkedScoresHolder.load_h5(files[i]) for i in order]
+            cut = 1 + case["order_seed"] % (len(files) - 1)
+            a_ = fresh()
+            left = a_[0]
+            for h_ in a_[1:cut]:
+                left = left.combine(h_)
+            g1 = ChunkedScoresHolder.concat([left] + a_[cut:])  # a combine() result among the inputs of concat
+            b_ = fresh()
+            g2 = ChunkedScoresHolder.concat([ChunkedScoresHolder.concat(b_[:cut]), ChunkedScoresHolder.concat(b_[cut:])])  # concat of concats
+            c_ = fresh()
+            g3 = ChunkedScoresHolder.concat(c_[:cut])
+            for h_ in c_[cut:]:
+                g3 = g3.combine(h_)  # a concat result extended by combine()
+            for tag_, g_ in (("combine_inside_concat", g1), ("concat_of_concats", g2), ("concat_then_combine", g3)):
+                require(pairs_of(g_) == exp_pairs, "combined.bracketing." + tag_, lambda: "chunks combined as %s (order %r, split after %d) hold %r, expected %r" % (tag_, order, cut, pairs_of(g_), exp_pairs))
         policy = KPerSamplePlatePolicy(case["policy_k"]) if case["policy_k"] else None
 
         def check_select(pol, batch_ids, tag):
